@@ -108,10 +108,12 @@ def portOf (e : Env) (listen : String) : Option Nat := (e.lookup listen).map (·
 harness never uses it). -/
 def collLock : String := "\u0000collection"
 
-/-- `AddOrReplace` for a single-entry populate that replaces a *running* proxy: the entry and
-the registry after `existing.Stop()`.  The collection lock is held from here to the start of
-the replacement, but `Proxy.Update` of another proxy takes only that proxy's mutex: it can bind
-the port that was just freed. -/
+/-- `AddOrReplace` for a single-entry populate that replaces a proxy (running or stopped): the
+entry and the registry after `existing.Stop()` (which does nothing to a stopped proxy).  The
+collection lock is held from here to the start of the replacement, but `Proxy.Update` takes only
+a proxy's mutex: an update of another proxy can bind the port that was just freed, and an update
+of the *old object of this name* (looked up before the populate took the lock) can start it again
+- on the very port the replacement is about to bind. -/
 def stopFirst (e : Env) (s : State) (r : Request) : Option (PopEntry × State) :=
   match decodePopulate r.body with
   | some [x] =>
@@ -122,7 +124,7 @@ def stopFirst (e : Env) (s : State) (r : Request) : Option (PopEntry × State) :
        | none => none
        | some _ =>
          if e.sameListen ex.listen x.listen && ex.upstream == x.upstream then none
-         else if ex.enabled then some (x, s.replace { ex with enabled := false }) else none)
+         else some (x, s.replace { ex with enabled := false }))
     | none => none
   | _ => none
 
@@ -204,12 +206,15 @@ def advance (v : UpdVariant) (e0 : Env) (c : CState) (r : Request) (ph : Phase) 
           -- is owned by nobody
           -- (a registered proxy of the same name is a different object: it keeps its port; the
           -- dead object gets a name of its own so that `startProxy` does not mistake the two)
+          -- (if the object is running - a zombie already - its own port is its own: `Proxy.Update`
+          -- stops it before it starts it again, on the same port or on another)
           let d0 := (c.dead.lookup (n, ep)).getD { obj with enabled := false }
-          let (p', ok) := updateProxy e c.s { d0 with name := d0.name ++ "\u2020" } inp
+          let zs0 := if d0.enabled then (match portOf e d0.listen with | some pt => c.zombies.erase pt | none => c.zombies) else c.zombies
+          let eD : Env := { e0 with busy := e0.busy ++ zs0 }
+          let (p', ok) := updateProxy eD c.s { d0 with name := d0.name ++ "\u2020" } inp
           let p'' := { p' with name := d0.name }
-          let z := if p''.enabled && !d0.enabled then (match portOf e p''.listen with | some pt => [pt] | none => []) else []
-          let z' := if !p''.enabled && d0.enabled then (match portOf e d0.listen with | some pt => c.zombies.erase pt | none => c.zombies) else c.zombies
-          ({ c with zombies := z' ++ z, dead := ((n, ep), p'') :: c.dead.filter (·.1 != (n, ep)) },
+          let z := if p''.enabled then (match portOf e p''.listen with | some pt => [pt] | none => []) else []
+          ({ c with zombies := zs0 ++ z, dead := ((n, ep), p'') :: c.dead.filter (·.1 != (n, ep)) },
            .done (if ok then Api.ok 200 (.proxy p'') else errResp .internal)))
      | _ => (c, .done (errResp .internal)))
   | .replacing x =>
